@@ -72,6 +72,19 @@ def shrink(kind, line, spec_of):
     return ";".join(ops)
 
 
+def shrink_hang(kind, line):
+    """a history after which an operation never returns: keep the shortest prefix that still hangs (binary search, a handful of runs)"""
+    ops = [o for o in line.split(";") if o.strip()]
+    lo, hi = 1, len(ops)
+    while lo < hi:
+        mid = (lo + hi) // 2
+        if "HANG" in vc.impl(["omap", kind], [";".join(ops[:mid])])[0]:
+            hi = mid
+        else:
+            lo = mid + 1
+    return ";".join(ops[:lo])
+
+
 def compare(ctx, lines, label):
     spec = vc.model_parallel("omap_spec", lines)
     mod = vc.model_parallel("omap_model", lines)
@@ -86,7 +99,8 @@ def compare(ctx, lines, label):
         bad = [(l, g, s) for l, g, s in zip(lines, got, spec) if g != s]
         ctx.evaluations += len(lines)
         for l, g, s in bad[:3]:
-            small = shrink(kind, l, spec_of)
+            # a history that hangs costs seconds per run: shrink it with a small budget only
+            small = shrink(kind, l, spec_of) if "HANG" not in g else shrink_hang(kind, l)
             g2, s2 = vc.impl(["omap", kind], [small])[0], spec_of(small)
             i, op, p, q = first_diff_op(small, g2, s2)
             what = "%s map: after history '%s' operation #%d (%s) gives %s, reference insertion-ordered map gives %s" % (kind, small, i, op, p, q)
@@ -106,7 +120,7 @@ def race_stress(ctx, seconds):
     if not ok:
         ctx.report("race-instrumented harness failed to build", "race-build", {"log": l[-2000:]}, no_input=True)
         return
-    rc, o, e = vc.sh([os.path.join(vc.BUILD, "implrun-race"), "omaprace", str(seconds), str(ctx.seed)], timeout=seconds * 6 + 120, env=vc.GOENV)
+    rc, o, e = vc.sh([os.path.join(vc.BUILD, "implrun-race"), "omaprace", str(seconds), str(ctx.seed)], timeout=seconds * 3 + 60, env=vc.GOENV)
     ctx.extra["race_stress"] = o.strip().splitlines()[-1] if o.strip() else ""
     if rc != 0 or "DATA RACE" in e or "INCONSISTENT" in o:
         what = "concurrent use of an ordered map: " + ("data race reported by the race detector" if "DATA RACE" in e else "inconsistent observation")
